@@ -121,6 +121,9 @@ func init() {
 	for _, a := range workload.Aliasing {
 		mutators = append(mutators, struct{ Src, In string }{a.Src, a.In})
 	}
+	for _, a := range workload.Chains {
+		mutators = append(mutators, struct{ Src, In string }{a.Src, a.In})
+	}
 	// argument-keyed caches inside a *Code (compiled regular expressions): expressions and flags
 	// taken from data, valid and invalid ones that a cache key might confuse, in an order where a
 	// failing call comes before and after a succeeding look-alike
